@@ -484,9 +484,9 @@ func (p *Parser) ParseErrorStatement() (*ast.ErrorStatement, error) {
 	// If code exists, attach comment to it as Trailing
 	case stmt.Code != nil:
 		SwapLeadingTrailing(p.curToken, stmt.Code.GetMeta())
-	// Otherwise, attach comment to the statement as Trailing
+	// Otherwise, attach comment to the statement as Infix like "error /* comment */;"
 	default:
-		SwapLeadingTrailing(p.curToken, stmt.Meta)
+		SwapLeadingInfix(p.curToken, stmt.Meta)
 	}
 	stmt.Trailing = p.Trailing()
 
@@ -976,6 +976,8 @@ func (p *Parser) ParseCaseStatement() (*ast.CaseStatement, error) {
 			}
 			matchExp.Operator = "~"
 			matchExp.Right = exp.Right
+			// The comment in front of "~" is kept as infix comment like "case /* comment */ ~ "foo":"
+			stmt.Infix = append(stmt.Infix, exp.GetMeta().Leading...)
 		default:
 			return nil, UnexpectedToken(p.curToken, "string", "~")
 		}
@@ -1078,6 +1080,10 @@ func (p *Parser) ParseFunctionCall() (*ast.FunctionCallStatement, error) {
 		return nil, errors.WithStack(err)
 	}
 	stmt.Arguments = args
+	if len(args) == 0 {
+		// No argument can take the comment inside an empty list like "foo(/* comment */);", keep it as infix
+		SwapLeadingInfix(p.curToken, stmt.Meta)
+	}
 
 	if !p.PeekTokenIs(token.SEMICOLON) {
 		return nil, errors.WithStack(MissingSemicolon(p.curToken))
